@@ -40,6 +40,17 @@ static void out_mpc (FILE *f, mpc_t c)
   out_mpf (f, mpc_Re (c)); fputc (' ', f); out_mpf (f, mpc_Im (c));
 }
 static void out_mpq (FILE *f, mpq_t q) { gmp_fprintf (f, "%Qd", q); }
+/* every limb the mpf holds (mpf_get_str with n_digits = 0 rounds to the digits its precision warrants, one to two
+ * limbs fewer than are stored): value = [-]HEX * 2^EXP2.  Added for C17 (format "full" prints all of them). */
+static void out_mpf_exact (FILE *f, mpf_t x)
+{
+  mp_size_t n = x->_mp_size; int neg = n < 0; mpz_t z;
+  if (neg) n = -n;
+  if (n == 0) { fprintf (f, "0:0"); return; }
+  mpz_init (z); mpz_import (z, (size_t)n, -1, sizeof (mp_limb_t), 0, 0, x->_mp_d);
+  gmp_fprintf (f, "%s%Zx:%ld", neg ? "-" : "", z, (long)GMP_NUMB_BITS * ((long)x->_mp_exp - (long)n));
+  mpz_clear (z);
+}
 
 /* C03: compact event trace filtered out of the library's own debug log */
 static void emit_trace (FILE *f, const char *log, size_t len)
@@ -121,6 +132,8 @@ static void dump_poly (FILE *f, mps_context *s, mps_polynomial *p)
       mps_chebyshev_poly *cp = MPS_CHEBYSHEV_POLY (p);
       for (i = 0; i <= p->degree; i++)
         {
+          if (cp->rational_real_coeffs == NULL)
+            { fprintf (f, "CHEBF %d F ", i); out_mpc (f, cp->mfpc[i]); fputc ('\n', f); continue; }
           fprintf (f, "CHEB %d Q ", i); out_mpq (f, cp->rational_real_coeffs[i]); fputc (' ', f);
           out_mpq (f, cp->rational_imag_coeffs[i]); fputc ('\n', f);
         }
@@ -267,6 +280,7 @@ int main (int argc, char **argv)
       fprintf (f, " FV "); out_d (f, cplx_Re (r->fvalue)); fputc (' ', f); out_d (f, cplx_Im (r->fvalue));
       fprintf (f, " DV "); out_rdpe (f, cdpe_Re (r->dvalue)); fputc (' ', f); out_rdpe (f, cdpe_Im (r->dvalue));
       fputc ('\n', f);
+      fprintf (f, "MVX %d ", i); out_mpf_exact (f, mpc_Re (r->mvalue)); fputc (' ', f); out_mpf_exact (f, mpc_Im (r->mvalue)); fputc ('\n', f);
     }
   /* accessor: multiprecision roots */
   {
@@ -322,6 +336,6 @@ int main (int argc, char **argv)
   mps_polynomial_free (s, poly);
   mps_context_free (s);
   fclose (ostr); free (obuf);
-  if (lstr) { fclose (lstr); free (lbuf); }
+  if (lstr) free (lbuf);   /* the stream itself is closed by mps_context_free */
   return 0;
 }
